@@ -146,8 +146,8 @@ func runC21(c *Ctx) error {
 	if err != nil {
 		return err
 	}
-	n := 6
-	maxCuts := 40
+	n := 12
+	maxCuts := 80
 	if c.Thorough() {
 		n = 60
 		maxCuts = 400
